@@ -43,7 +43,7 @@ use std::net::{Ipv4Addr, Ipv6Addr};
 use time::{OffsetDateTime, Time, UtcOffset};
 use yasna::models::ObjectIdentifier;
 use yasna::models::{GeneralizedTime, UTCTime};
-use yasna::tags::{TAG_BMPSTRING, TAG_TELETEXSTRING, TAG_UNIVERSALSTRING};
+use yasna::tags::{TAG_BMPSTRING, TAG_PRINTABLESTRING, TAG_TELETEXSTRING, TAG_UNIVERSALSTRING};
 use yasna::DERWriter;
 use yasna::Tag;
 
@@ -592,9 +592,13 @@ fn write_distinguished_name(writer: DERWriter, dn: &DistinguishedName) {
 
 						DnValue::Ia5String(s) => writer.next().write_ia5_string(s.as_str()),
 
-						DnValue::PrintableString(s) => {
-							writer.next().write_printable_string(s.as_str())
-						},
+						// The value was validated by `PrintableString`; yasna's own writer
+						// rejects '?' although it is part of the PrintableString alphabet
+						DnValue::PrintableString(s) => writer
+							.next()
+							.write_tagged_implicit(TAG_PRINTABLESTRING, |writer| {
+								writer.write_bytes(s.as_str().as_bytes())
+							}),
 						DnValue::TeletexString(s) => writer
 							.next()
 							.write_tagged_implicit(TAG_TELETEXSTRING, |writer| {
